@@ -14,6 +14,10 @@ import PqlModel.Props.C07OperatorIRRender
 import PqlModel.Props.C07OperatorIRJoin
 import PqlModel.Props.C07OperatorIRParse
 import PqlModel.Props.C07ExprIR
+import PqlModel.Props.C08ErrIRUnits
+import PqlModel.Props.C08ErrIRAlgebra
+import PqlModel.Props.C08ErrIRShape
+import PqlModel.Props.C08ErrIR
 #print axioms Pql.C08.C08_split_partition
 #print axioms Pql.C08.C08_splitSemi_partition
 #print axioms Pql.C08.C08_endSplit_iff
@@ -50,3 +54,39 @@ import PqlModel.Props.C07ExprIR
 #print axioms Pql.Reject.C08_join_without_on_rejected
 #print axioms Pql.Reject.C08_call_only_comma_rejected
 #print axioms Pql.Reject.C08_in_empty_list_rejected
+#print axioms Pql.ErrIR.C08_joinErrors_ir
+#print axioms Pql.ErrIR.C08_makeErrorOpaque_ir
+#print axioms Pql.ErrIR.C08_isNotFound_ir
+#print axioms Pql.ErrIR.C08_isNotFound_built
+#print axioms Pql.ErrIR.C08_built_closed
+#print axioms Pql.ErrIR.C08_built_invariant
+#print axioms Pql.ErrIR.C08_nil_ir
+#print axioms Pql.ErrIR.C08_errSites_ir
+#print axioms Pql.ErrIR.C08_site_leaves
+#print axioms Pql.ErrIR.C08_returned_leaves
+#print axioms Pql.ErrIR.C08_opIR_primitives
+#print axioms Pql.ErrIR.C08_exprIR_primitives
+#print axioms Pql.ErrIR.C08_examples_trees
+#print axioms Pql.ErrIR.C08_examples_built
+#print axioms Pql.ErrIR.C08_examples_leaves
+#print axioms Pql.ErrIR.C08_examples_nontrivial
+#print axioms Pql.ErrIR.joinErrors_ir
+#print axioms Pql.ErrIR.makeErrorOpaque_ir
+#print axioms Pql.ErrIR.isNotFound_ir
+#print axioms Pql.ErrIR.errTypes_ir
+#print axioms Pql.ErrIR.joinErrors_interp
+#print axioms Pql.ErrIR.makeErrorOpaque_interp
+#print axioms Pql.ErrIR.isNotFound_interp
+#print axioms Pql.ErrIR.leaves_goJoin
+#print axioms Pql.ErrIR.leaves_goOpaque
+#print axioms Pql.ErrIR.errorsAs_leaves
+#print axioms Pql.ErrIR.built_wf
+#print axioms Pql.ErrIR.leaves_eq_nil_iff
+#print axioms Pql.ErrIR.leaves_spans
+#print axioms Pql.ErrIR.join_empty_cx
+#print axioms Pql.ErrIR.perr_nested_cx
+#print axioms Pql.ErrIR.bareNF_cx
+#print axioms Pql.ErrIR.opaque_unwrap_cx
+#print axioms Pql.ErrIR.nf_unwrap_irrelevant_as
+#print axioms Pql.ErrIR.nested_join_kept
+#print axioms Pql.ErrIR.wrap_inside_cx
